@@ -159,6 +159,18 @@ pub fn run(seed: u64, n: usize, out: &mut Out) {
             dot_urls = vec![format!("https://ad{}.example.com/x.js", w), format!("https://ad{}.example.com/{}/x.js", w, w), format!("https://{}.example.com/x.js", w),
                             format!("https://a.{}.example.com/x.js", w), format!("https://cdn.test/{}/x.js", w), format!("https://my{}.co/{}.js", w, w)];
         }
+        if r.pct(10) {
+            // left-anchored plain rules of one bucket (the optimiser fuses them into one multi-pattern rule): each keeps
+            // matching the URLs it matches alone, whatever the lengths and the order of the others
+            let h: &str = r.pick(&["ads.tracker.io", "cdn.test"]);
+            let opt: &str = r.pick(&["", "$script", "$image,third-party"]);
+            for tail in ["ads/popunder/long/path/segment", "ads.js", "pop", "ad"] {
+                lines.push(format!("{}|https://{}/{}{}", if r.pct(10) { "@@" } else { "" }, h, tail, opt));
+            }
+            for u in ["ads.js", "advert.js", "pop", "popunder", "ads/popunder/long/path/segment/x", "a"] {
+                dot_urls.push(format!("https://{}/{}", h, u));
+            }
+        }
         if r.pct(8) {
             // regular-expression rules that do not compile, in the bucket of ones that do
             lines.push("/advert[0-9]+/".to_string());
@@ -209,8 +221,8 @@ pub fn run(seed: u64, n: usize, out: &mut Out) {
             out.bump("engines_with_regex_churn");
         }
         let case = Case { lines: lines.clone(), optimize, tags };
-        for du in &dot_urls {
-            if let Some(q) = make_req(du, "https://shop.test/", "script") {
+        for (k, du) in dot_urls.iter().enumerate() {
+            if let Some(q) = make_req(du, "https://shop.test/", if k % 3 == 2 { "image" } else { "script" }) {
                 scan_oracle(out, &lines, &engine, &mut rules, &q);
                 emit(out, &case, &engine, &rules, &resources, &q, "chk");
             }
